@@ -259,6 +259,12 @@ def gene_on_chunk(strand):
         f1 = FeatureInterval([s0], [s0 + l0], strand, guid=49, parent_or_seq_chunk_parent=par)
         fc = FeatureIntervalCollection([f1], guid=50, parent_or_seq_chunk_parent=par)
         conds = [gc.start == gw.start, gc.end == gw.end, DEQ(gc.to_dict(), gw.to_dict()), fc.start == s0, fc.end == s0 + l0]
+        # which member is primary is a chromosome-level answer: the longer transcript (the earlier one on a tie), whatever part of it the chunk holds
+        conds.append(gc.get_primary_transcript().guid == gw.get_primary_transcript().guid)
+        conds.append(gw.get_primary_transcript().guid == ITE(l1 > l0, 47, 46))
+        f2 = FeatureInterval([s0 + l0 + g1], [s0 + l0 + g1 + l1], strand, guid=51, parent_or_seq_chunk_parent=par)
+        fc2 = FeatureIntervalCollection([FeatureInterval([s0], [s0 + l0], strand, guid=49, parent_or_seq_chunk_parent=par), f2], guid=52, parent_or_seq_chunk_parent=par)
+        conds.append(fc2.get_primary_feature().guid == ITE(l1 > l0, 51, 49))
         rel = gc.chunk_relative_location
         inside = AND(s0 < w + L, w < s0 + l0 + g1 + l1)
         if rel is EmptyLocation():
